@@ -28,6 +28,20 @@ class Recording(Aggregator):
         return v
 
 
+class Scheduled(Aggregator):
+    """a STATEFUL aggregator (like NashMTL, or any user-defined one): call j of its life uses the j-th aggregator of its
+    schedule.  The state lives on the object the user passes; the calls of a history must see it advance."""
+
+    def __init__(self, inners):
+        super().__init__()
+        self.inners, self.calls = list(inners), 0
+
+    def forward(self, J):
+        inner = self.inners[min(self.calls, len(self.inners) - 1)]
+        self.calls += 1
+        return inner(J)
+
+
 def sptr(t):
     return t.untyped_storage().data_ptr()
 
@@ -63,7 +77,30 @@ def gen_ops(ctx: Ctx, P, M):
             calls.append(op)
             ops.append(op)
         elif r < 0.75:
-            ops.append(calls[-1])                       # repeat the same call (retained graph)
+            # repeat the call (retained graph) — through the SAME aggregator object, whose state decides the weights
+            prev = list(calls[-1])
+            ai = 5 if prev[0] == "mtl" else 3
+            if prev[ai][0] in ("const", "probe") and rng.random() < 0.6:
+                prev[ai] = (prev[ai][0], [rng.randint(-5, 7) for _ in prev[ai][1]])
+            ops.append(tuple(prev))
+        elif r < 0.83:
+            # two same-shaped parameters made to share ONE gradient tensor (a common accumulator for tied weights)
+            pairs = [(a, b) for a in rg for b in rg if a != b and numel(P.nodes[a].shape) == numel(P.nodes[b].shape)
+                     and P.nodes[a].shape == P.nodes[b].shape and P.nodes[a].flip == P.nodes[b].flip]
+            if pairs:
+                a, b = rng.choice(pairs)
+                if rng.random() < 0.5:
+                    ops.append(("set", a, [rng.randint(-9, 9) for _ in range(numel(P.nodes[a].shape))]))
+                ops.append(("alias", a, b))
+                # ... and a call that requests both of them
+                cands = differentiable_nonleaves(P)
+                tensors = rng.sample(cands, min(len(cands), rng.choice([1, 2])))
+                mm = sum(numel(P.nodes[t].shape) for t in tensors)
+                ins = list(dict.fromkeys([a, b] + [i for i in rg if rng.random() < 0.5]))
+                rng.shuffle(ins)
+                op = ("backward", tensors, ins, ("const", [rng.randint(-5, 7) for _ in range(mm)]), rng.choice([None, 1, 2]))
+                calls.append(op)
+                ops.append(op)
         elif r < 0.85:
             ops.append(("zero", rng.choice(rg)))
         elif r < 0.93:
@@ -86,6 +123,8 @@ def op_sx(op):
                 ["shared", list(shared)], ["agg", *agg], ["chunk", "none" if chunk is None else chunk]]
     if k in ("zero", "none"):
         return [k, op[1]]
+    if k == "alias":
+        return ["alias", op[1], op[2]]
     return [k, op[1], list(op[2])]
 
 
@@ -97,6 +136,13 @@ def run_history(ctx: Ctx, P, M, ops):
     sink = []
     rep = ctx.driver.ask(["history", P.to_sx(), ["ops", *[op_sx(o) for o in ops]], ["report", leaves]])
     prev_ptr, prev_sid = {}, {}
+    # one aggregator OBJECT per distinct call signature; it is stateful: its j-th call uses the j-th scheduled weights
+    def sig(o):
+        return (o[0], str(o[1:3])) if o[0] == "backward" else (o[0], str(o[1:5]))
+    sched, objs = {}, {}
+    for o in ops:
+        if o[0] in ("backward", "mtl"):
+            sched.setdefault(sig(o), []).append(o[3] if o[0] == "backward" else o[5])
     for step, (op, mrep) in enumerate(zip(ops, rep)):
         merr = field(mrep, "err")[0]
         merr = None if merr == "none" else merr
@@ -105,13 +151,19 @@ def run_history(ctx: Ctx, P, M, ops):
         try:
             if op[0] == "backward":
                 _, tensors, ins, agg, chunk = op
-                backward([ts[i] for i in tensors], Recording(make_agg(agg, jac_dtype(ts, ins, dtype)), sink), inputs=[ts[i] for i in ins],
+                if sig(op) not in objs:
+                    objs[sig(op)] = Recording(Scheduled([make_agg(a, jac_dtype(ts, ins, dtype)) for a in sched[sig(op)]]), sink)
+                backward([ts[i] for i in tensors], objs[sig(op)], inputs=[ts[i] for i in ins],
                          retain_graph=True, parallel_chunk_size=chunk)
             elif op[0] == "mtl":
                 _, losses, feats, tasks, shared, agg, chunk = op
-                mtl_backward([ts[i] for i in losses], [ts[i] for i in feats], Recording(make_agg(agg, jac_dtype(ts, shared, dtype)), sink),
+                if sig(op) not in objs:
+                    objs[sig(op)] = Recording(Scheduled([make_agg(a, jac_dtype(ts, shared, dtype)) for a in sched[sig(op)]]), sink)
+                mtl_backward([ts[i] for i in losses], [ts[i] for i in feats], objs[sig(op)],
                              tasks_params=[[ts[i] for i in tp] for tp in tasks], shared_params=[ts[i] for i in shared],
                              retain_graph=True, parallel_chunk_size=chunk)
+            elif op[0] == "alias":
+                ts[op[2]].grad = ts[op[1]].grad
             elif op[0] == "zero":
                 if ts[op[1]].grad is not None:
                     ts[op[1]].grad.zero_()
@@ -155,13 +207,15 @@ def run_history(ctx: Ctx, P, M, ops):
             if p_ in others:
                 ctx.violation(f"after step {step} ({op[0]}): n{k}.grad shares memory with {others[p_]}", rp)
                 return False
-        byptr = {}
+        byptr, bysid = {}, {}
         for k, p_ in ptr.items():
             byptr.setdefault(p_, []).append(k)
-        for p_, ks in byptr.items():
-            if len(ks) > 1:
-                ctx.violation(f"after step {step} ({op[0]}): .grad of {ks} share one storage", rp)
-                return False
+            bysid.setdefault(mg[k][0], []).append(k)
+        if sorted(map(sorted, byptr.values())) != sorted(map(sorted, bysid.values())):
+            ctx.violation(f"after step {step} ({op[0]}): which .grad fields share memory {sorted(map(sorted, byptr.values()))} "
+                          f"differs from the heap model {sorted(map(sorted, bysid.values()))} (only gradients the USER aliased "
+                          f"may share a storage)", rp)
+            return False
         for k, p_ in ptr.items():
             sid = mg[k][0]
             if k in prev_sid and prev_sid[k] == sid and prev_ptr.get(k) != p_:
@@ -189,7 +243,8 @@ def main(ctx: Ctx):
         ctx.count("calls_in_history", sum(1 for o in ops if o[0] in ("backward", "mtl")))
     return ctx.finish(
         rule="histories of 1-6 operations (backward / mtl_backward with retain_graph=True incl. repeated identical "
-             "calls, .grad.zero_(), .grad=None, in-place edits, pre-existing .grad of arbitrary content) on ONE graph "
+             "calls through ONE stateful aggregator object, .grad.zero_(), .grad=None, in-place edits, two parameters sharing one "
+             "gradient tensor, pre-existing .grad of arbitrary content) on ONE graph "
              "of a random P-int program; after every operation: .grad of all leaves == heap model (values), values of "
              "all tensors unchanged, no .grad shares storage with any tensor of the graph, with the (recorded) "
              "aggregator output or with another .grad, existing .grad updated in place",
